@@ -182,14 +182,28 @@ def main(tier: str) -> int:
             jlines.append("#eval IO.println (showS (SHADE_update_u_CR ((%d : Rat) / 16) %s %s))" % (round(u_ * 16), q8(S_), q8(df_)))
         else:
             jlines.append("#eval IO.println (showS (SHAGA_update_u (fun x w => TFV.Adapt.lehmer x w) ((%d : Rat) / 16) %s %s))" % (round(u_ * 16), q8(S_), q8(df_)))
+    lcases = []
+    for _ in range(16 if tier == "quick" else 120):
+        n_ = rng.randint(0, 4)
+        lcases.append((rng.choice(["w", "p"]), [rng.choice([0, 0, 1, 2, 4, 8, 16]) / 16 for _ in range(n_)], [rng.choice([0, 1, 2, 4]) / 4 for _ in range(n_)]))
+    jlines[0:0] = ["import TFV.Generated.Src.Lehmer_mean_weighted", "import TFV.Generated.Src.Lehmer_mean_plain"]
+    for which, x_, w_ in lcases:
+        jlines.append("#eval IO.println (showS (Lehmer_mean_weighted %s %s))" % (q8(x_), q8(w_)) if which == "w" else "#eval IO.println (showS (Lehmer_mean_plain %s))" % q8(x_))
     jaudit = C.LEAN / "TFV" / "Audit" / "C15_np.lean"
     jaudit.parent.mkdir(parents=True, exist_ok=True)
     jaudit.write_text("\n".join(jlines) + "\n")
     with C.LeanLock():
         jpr = subprocess.run(["lake", "env", "lean", str(jaudit.relative_to(C.LEAN))], cwd=C.LEAN, capture_output=True, text=True, timeout=900)
     jgot = [l.strip() for l in jpr.stdout.splitlines() if l.strip()]
-    chk.obligation("the translated jDE regeneration functions evaluate (lake env lean TFV/Audit/C15_np.lean)", jpr.returncode == 0 and len(jgot) == len(jcases) + len(ucases), (jpr.stdout + jpr.stderr)[-600:])
-    if jpr.returncode == 0 and len(jgot) == len(jcases) + len(ucases):
+    chk.obligation("the translated jDE regeneration functions evaluate (lake env lean TFV/Audit/C15_np.lean)", jpr.returncode == 0 and len(jgot) == len(jcases) + len(ucases) + len(lcases), (jpr.stdout + jpr.stderr)[-600:])
+    if jpr.returncode == 0 and len(jgot) == len(jcases) + len(ucases) + len(lcases):
+        for (which, x_, w_), g in zip(lcases, jgot[len(jcases) + len(ucases):]):
+            with np.errstate(all="ignore"):
+                real = float(SHM.lehmer_mean(np.array(x_, dtype=np.float64), weight=np.array(w_, dtype=np.float64)) if which == "w" else SHM.lehmer_mean(np.array(x_, dtype=np.float64)))
+            val = None if g == "none" else int(g.split("/")[0]) / int(g.split("/")[1])
+            chk.count("np_kernel_lehmer_" + which)
+            (chk.agree("np_kernel:lehmer_mean") if val is not None and C.close(real, val, 1e-9, 1e-12) else
+             chk.disagree("np_kernel:lehmer_mean", {"input": {"x": x_, "weight": w_ if which == "w" else None}, "impl": real, "model": g}))
         import re as _re
         from thefittest.optimizers import SHADE as _SHADE
         sh_ = _SHADE(fitness_function=lambda x: np.sum(x, axis=1), iters=2, pop_size=4, left_border=-1.0, right_border=1.0, num_variables=2)
